@@ -295,7 +295,7 @@ class Printer:
     def __init__(self, p, name, style=None):
         self.p, self.name, self.style = p, name, style
         self.pos = {}  # deref id -> (relative file, line, col)
-        self.cpos = {}  # call site id -> (relative file, line, col of the call expression, col of its first argument)
+        self.cpos = {}  # call site id -> (relative file, line, col of the identifier naming the callee, col of its first argument)
         self.sret = set()  # (relative file, line) of the returns whose error operand is the sentinel
 
     def pick(self, n):
@@ -437,7 +437,9 @@ class Printer:
             sites += [(c, oc + len(text), oa + len(text), ff) for c, oc, oa, ff in ss]
             text += t
         text += ")"
-        sites.append((cs, 0, arg0 if arg0 is not None else 0, f))
+        # a call site is located by the identifier that names the callee (`F` in `p.F(x)`, `M` in `x.M(y)`): the calls of a
+        # chain share the position of their leftmost operand (finding F108)
+        sites.append((cs, len(head) - len(self.fname(f)) - 1, arg0 if arg0 is not None else 0, f))
         return text, sites
 
     # conditions: returns text; records deref columns relative to the start of the returned text
